@@ -153,3 +153,19 @@ def x18(cx: Cx, ob: Ob) -> None:
 
     check_parse_uri_lookup(cx, ob)
     check_remainder(cx, ob)
+
+
+@obligation("C06-X10", "Converter.__init__ reads its (Iterable, possibly one-shot) `records` argument only through one materialising call (sorted/list) and builds EVERY lookup table from that list (shared with C10-X10): a table built from the raw argument is empty for generators, and standardisation through it fails for names the records list", floor=2)
+def x10(cx: Cx, ob: Ob) -> None:
+    from ..rules import constructor_owns_records
+
+    constructor_owns_records(cx, ob)
+
+
+@obligation("C06-X16", "incremental construction (shared with C05-D3/D5/D6): _match_record compares the full cover through _eq/_in in both case modes, _merge adds names by exact membership, add_record rejects ambiguous records - otherwise one URI prefix ends up owned by two records and standardisation rewrites one record's names to the other's", floor=8)
+def x16(cx: Cx, ob: Ob) -> None:
+    from .c05 import check_match_record, check_merge, d3 as add_record_guards
+
+    check_match_record(cx, ob)
+    check_merge(cx, ob)
+    add_record_guards(cx, ob)
